@@ -208,6 +208,11 @@ M("c01.aead.ocb.pendingA", "C01", CIPH + "_mode_ocb.py", "        if self._cache
 M("c09.aead.ocb.cacheP", "C09", CIPH + "_mode_ocb.py", "        self._cache_P = _copy_bytes(trans_len, None, in_data)\n", "        self._cache_P = _copy_bytes(trans_len + 1, None, in_data) if trans_len == 32 else _copy_bytes(trans_len, None, in_data)\n", "SEG|aead.ocb")
 M("c02.openpgp.resync", "C02", CIPH + "_mode_openpgp.py", "                            IV=self._encrypted_IV[-self.block_size:],", "                            IV=self._encrypted_IV[:self.block_size],", "K-pw|openpgp.cfb")
 M("c02.openpgp.repeat", "C02", CIPH + "_mode_openpgp.py", "            self._encrypted_IV = IV_cipher.encrypt(iv + iv[-2:])", "            self._encrypted_IV = IV_cipher.encrypt(iv + iv[:2])", "K-pw|openpgp.cfb")
+CCP = CIPH + "ChaCha20_Poly1305.py"
+M("c01.aead.chachapoly.lens", "C01", CCP, "        self._authenticator.update(long_to_bytes(self._len_aad, 8)[::-1])\n        self._authenticator.update(long_to_bytes(self._len_ct, 8)[::-1])", "        self._authenticator.update(long_to_bytes(self._len_aad, 8))\n        self._authenticator.update(long_to_bytes(self._len_ct, 8))", "K-pw|aead.chachapoly")
+M("c02.aead.chachapoly.counter", "C02", CCP, "        self._cipher.seek(64)   # Block counter starts at 1", "        self._cipher.seek(0)", "K-pw|aead.chachapoly")
+M("c01.aead.xchacha.nonce", "C01", CCP, "        chacha20_poly1305_nonce = b'\\x00\\x00\\x00\\x00' + nonce[16:]", "        chacha20_poly1305_nonce = nonce[12:]", "K-pw|aead.chachapoly")
+M("c09.aead.chachapoly.padct", "C09", CCP, "        if self._len_ct & 0x0F:\n            self._authenticator.update(b'\\x00' * (16 - (self._len_ct & 0x0F)))", "        if self._len_ct & 0x0F:\n            self._authenticator.update(b'\\x00' * (16 - (self._len_ct & 0x07)))", "|aead.chachapoly")
 OCBC = "src/raw_ocb.c"
 M("c02.ocb.double.const", "C02", OCBC, "(carry & 0x87)", "(carry & 0x86)", "K-pw|c|ocb.crypt")
 M("c01.ocb.checksum.pad", "C01", OCBC, "        state->checksum[in_len] ^= 0x80;", "        state->checksum[in_len] |= 0x80;", "K-pw|c|ocb.crypt")
